@@ -119,21 +119,18 @@ Qed.
 (* ------------------------------------------------------------------ *)
 (** * 3. The parameter names read back *)
 
-(* the *args / **kwargs names, when present, are not the empty string (Args tests them by truth value) *)
-Definition args_named (a : args) : Prop := a_varpos a <> Some [] /\ a_varkw a <> Some [].
-
-Lemma truthy_named (o : option str) : o <> Some [] -> str_truthy o = AP.is_some o /\ truthy_list o = opt_list o.
-Proof. destruct o as [[|ch s]|]; intros H; try (split; reflexivity). now destruct H. Qed.
+(* Args tests var_positional / var_keyword with [is not None] *)
+Lemma truthy_named (o : option str) : str_truthy o = AP.is_some o /\ truthy_list o = opt_list o.
+Proof. destruct o; split; reflexivity. Qed.
 
 Lemma args_back a (varnames : list str) fl :
-  args_named a ->
   take (zlen (args_to_varnames a)) varnames = args_to_varnames a ->
   flag_mem VARARGS fl = str_truthy (a_varpos a) -> flag_mem VARKEYWORDS fl = str_truthy (a_varkw a) ->
   args_from_input (zlen (a_posonly a) + zlen (a_poskw a)) (zlen (a_posonly a)) (zlen (a_kwonly a)) varnames fl
   = OK (a, flag_remove VARKEYWORDS (flag_remove VARARGS fl)).
 Proof.
-  intros [Hp Hk] Htake Hfp Hfk.
-  destruct (truthy_named _ Hp) as [Tp Lp]. destruct (truthy_named _ Hk) as [Tk Lk].
+  intros Htake Hfp Hfk.
+  destruct (truthy_named (a_varpos a)) as [Tp Lp]. destruct (truthy_named (a_varkw a)) as [Tk Lk].
   assert (Hv : varnames = args_to_varnames a ++ drop (zlen (args_to_varnames a)) varnames).
   { rewrite <- Htake at 1. unfold take, drop. symmetry. apply firstn_skipn. }
   set (rest := drop (zlen (args_to_varnames a)) varnames) in Hv.
@@ -513,7 +510,6 @@ Theorem header_back c d code nf :
   flag_value (cfg_flags c) NOFREE = Some nf ->
   cd_addline d = None -> cd_addargs d = [] ->
   Forall no_const_ov (concat (cd_blocks d)) ->
-  match cd_type d with Some f => args_named (fn_args f) | None => True end ->
   encode_code c d = OK code ->
   exists code0 lm0 names varnames cellvars constants,
     ECo.b2b c d = OK (code0, lm0, names, varnames, cellvars, constants) /\
@@ -523,7 +519,7 @@ Theorem header_back c d code nf :
       cd_freevars d2 = cd_freevars d /\ cd_stacksize d2 = cd_stacksize d /\
       cd_firstline d2 = cd_firstline d /\ cd_name d2 = cd_name d /\ cd_filename d2 = cd_filename d.
 Proof.
-  intros Hwf Hnf Hal Haa Hov Hnamed Henc.
+  intros Hwf Hnf Hal Haa Hov Henc.
   destruct (encode_inv_f c d code Hal Henc)
     as (code0 & lm0 & names & varnames & cellvars & constants & flags & table & HB & Hfl & Htake & H38 & ->).
   exists code0, lm0, names, varnames, cellvars, constants. split; [exact HB|]. split; [reflexivity|].
@@ -566,11 +562,9 @@ Proof.
   assert (Epos : (if cfg_v38 c then snd (fst (enc_counts (cd_type d))) else 0) = snd (fst (enc_counts (cd_type d)))).
   { destruct (cfg_v38 c) eqn:V; [reflexivity|]. symmetry. now apply H38. }
   rewrite Epos, Ecnt in Af. cbn [fst snd] in Af.
-  assert (Hn : args_named (args_of (cd_type d))).
-  { destruct (cd_type d); [exact Hnamed|]. split; discriminate. }
   assert (Htk : take (zlen (args_to_varnames (args_of (cd_type d)))) varnames = args_to_varnames (args_of (cd_type d))).
   { destruct (cd_type d); [exact Htake|reflexivity]. }
-  rewrite (args_back _ varnames fs' Hn Htk) in Af by (rewrite Hmem; assumption).
+  rewrite (args_back _ varnames fs' Htk) in Af by (rewrite Hmem; assumption).
   inversion Af; subst a fl1. clear Af.
   fold (dec_rest fs') in Bt.
   pose proof (fun g => mem_dec_rest g d cellvars fs' Hmem) as HL.
